@@ -2069,6 +2069,15 @@ func (db *DB) sync(ctx context.Context, checkpointing bool, exec *syncExecutor, 
 	}
 	defer walFile.Close()
 
+	// A snapshot is the database file overlaid by every committed frame of the
+	// WAL, so it always reads the WAL from its first frame. verify can ask for
+	// a snapshot while leaving the offset at the last replicated position
+	// (e.g. the frame before it no longer matches); continuing from there
+	// would leave out the frames in front of it.
+	if info.snapshotting {
+		info.offset = WALHeaderSize
+	}
+
 	walReaderLogger := db.Logger.With(LogKeySubsystem, LogSubsystemWALReader)
 	var rd *WALReader
 	if info.offset == WALHeaderSize {
